@@ -4,6 +4,18 @@ import json, os
 ROOT = os.path.dirname(os.path.dirname(os.path.abspath(__file__)))
 ALL = ["C%02d" % i for i in range(1, 20)]
 CHECKS = {
+ "C01": dict(cat="model_checking", ref="§3.1-3.5, §4 C01, Appendix A/B",
+   technique="explicit-state exploration of both real interpreters against a reference WDC 65C816 model: exhaustive products of boundary alphabets per opcode (fetch/addressing/operation/flag/frame sweeps) plus DFS over all instruction sequences to depth 4 (5), every transition a real Step compared through an abstraction function",
+   text="Every enumerated raw state (all 256 opcodes x relevance-class products of boundary values incl. stale register copies, all 256 P values, bank/page/address-space edges) is stepped once on cpu65c816 and cpualt and compared with the reference model's registers, flags, PC and write set; a program search then executes every sequence over a 62-instruction alphabet (width switches, stack, transfers, block moves, control transfers) from 6 seed states with the reference in lockstep. Deviations are classified by named reference quirks so the recorded decimal-mode finding is recognised by its exact behaviour and anything else is a violation.",
+   note="Bounded: exhaustive within the stated union of products and sequence depth, not over all 2^100 states x 2^(2^27) images. Trusts internal/ref65816 (cross-checked against two implementations it was not derived from) and its don't-care mask."),
+ "C02": dict(cat="model_checking", ref="§4 C02",
+   technique="lockstep differential explicit-state exploration: the same sweeps (E in {0,1}, decimal, pending interrupts) and instruction-sequence DFS executed on both real interpreters from identical raw states, raw-field bisimulation oracle",
+   text="Both interpreters are driven from identical raw states and images; after every step every exported register (both copies of A/X/Y), flag, E, Stopped, Interrupt, the per-step cycle count, AllCycles and the write set must be identical, and a panic in exactly one is a difference. Raw equality after each step is the bisimulation that extends single-step agreement to any number of steps.",
+   note="Same alphabets and depth bounds as C01; no reference model involved, so emulation and decimal mode need no WDC oracle."),
+ "C08": dict(cat="model_checking", ref="§4 C08",
+   technique="the C02 exploration plus a product concentrated at the top of the address space, with a failure-freedom and 24-bit-bound oracle on the logged bus accesses of both real interpreters",
+   text="Every enumerated Step of both interpreters (boundary sweeps with E in {0,1}, a second pass with DBR $FE/$FF, operands $FFxx, pointers at $FFFFFE/$FFFFFF and PC at the end of bank $FF, and instruction sequences) must complete without a Go runtime failure and every logged read/write address must be below 2^24.",
+   note="The wrapped target of each access is judged by C01; here only failure-freedom and the address bound. Same stated alphabets."),
  "C11": dict(cat="exploration", ref="§4 C11",
    technique="exhaustive enumeration of all 2^24 bus addresses for reads (4 identification passes on the real System) and for writes (mirror-layer sweeps with full-array comparison) against the real LoROM mapper",
    text="Every bus address is read through the real System bus with a unique location id planted in every array cell, so the backing cell of each address is identified exactly and compared with what lorom.BusAddressToPak designates; every address both sides consider memory is then written (4 runs per mirror layer, ascending/descending, complementary values) and the ROM, SRAM and WRAM arrays are compared in full with the prediction after each run. The address domain is finite and fully covered.",
